@@ -1004,7 +1004,13 @@ func c04DecodedOnly(w *World, r *Report) {
 						}
 						return ""
 					}
-					if msg := pcImplies(row.cond, classify, func(env map[string]bool) bool { return !(env["runeerror"] && env["size1"]) }); msg != "" {
+					tested := map[string]bool{}
+					for _, a := range row.cond.atoms() {
+						tested[classify(a)] = true
+					}
+					if !tested["runeerror"] || !tested["size1"] {
+						why = "the result of DecodeRune is returned without having been tested for the (RuneError, 1) of an invalid encoding"
+					} else if msg := pcImplies(row.cond, classify, func(env map[string]bool) bool { return !(env["runeerror"] && env["size1"]) }); msg != "" {
 						why = "the result of DecodeRune is returned although it may be the (RuneError, 1) of an invalid encoding: " + msg
 					}
 					continue
